@@ -133,14 +133,14 @@ func (fr *Frame) writerWrite(x *ssa.Call, b Val, st *State, rch Term) Val {
 	if k, ok := litInt(b.C[1]); ok && k <= 16 {
 		t := out
 		for i := int64(0); i < k; i++ {
-			t = store(t, add(olen, itoa(i)), vc.sel(heap, add(b.C[0], itoa(i))))
+			t = store(t, add(olen, itoa(i)), vc.sel(heap, adr(b.C[0], itoa(i))))
 		}
 		nf := vc.fresh("#out~f", "(Array Int Int)")
 		vc.set(st, "#out", ite(okT, t, nf))
 	} else {
 		nw := vc.fresh("#out~w", "(Array Int Int)")
-		vc.assume(implies(okT, fmt.Sprintf("(forall ((k Int)) (! (= (select %s k) (ite (and (<= %s k) (< k (+ %s %s))) (select %s (+ %s (- k %s))) (select %s k))) :pattern ((select %s k))))",
-			nw, olen, olen, b.C[1], heap, b.C[0], olen, out, nw)))
+		vc.assume(implies(okT, fmt.Sprintf("(forall ((k Int)) (! (= (select %s k) (ite (and (<= %s k) (< k (+ %s %s))) (select %s %s) (select %s k))) :pattern ((select %s k))))",
+			nw, olen, olen, b.C[1], heap, adr(b.C[0], sx("-", "k", olen)), out, nw)))
 		st.m["#out"] = nw
 	}
 	vc.set(st, "#outlen", add(olen, n))
@@ -204,10 +204,10 @@ func (fr *Frame) visitorEvent(x *ssa.Call, name string, kind int, args []Val, st
 			ln := args[0].C[1]
 			if k, ok := litInt(ln); ok && k <= 16 {
 				for i := int64(0); i < k; i++ {
-					vc.assume(eq(sel(snap, itoa(i)), sel(heap, add(args[0].C[0], itoa(i)))))
+					vc.assume(eq(sel(snap, itoa(i)), sel(heap, adr(args[0].C[0], itoa(i)))))
 				}
 			} else {
-				vc.assume(fmt.Sprintf("(forall ((k Int)) (! (=> (and (<= 0 k) (< k %s)) (= (select %s k) (select %s (+ %s k)))) :pattern ((select %s k))))", ln, snap, heap, args[0].C[0], snap))
+				vc.assume(fmt.Sprintf("(forall ((k Int)) (! (=> (and (<= 0 k) (< k %s)) (= (select %s k) (select %s %s))) :pattern ((select %s k))))", ln, snap, heap, adr(args[0].C[0], "k"), snap))
 			}
 			vc.set(st, "#evc", store(vc.get(st, "#evc"), n, snap))
 			vc.set(st, "#evl", store(vc.get(st, "#evl"), n, ln))
